@@ -34,7 +34,7 @@ COMPONENTS = {
              'mapproxy.service.tile / wmts / kml / wms', 'mapproxy.response.Response (cache_headers, make_conditional)',
              'mapproxy.util.times', 'mapproxy.layer / cache.tile.TileManager', 'mapproxy.source.wms + client.wms + source.error',
              'mapproxy.cache.file.FileCache', 'mapproxy.cache.mbtiles.MBTilesLevelCache'],
-    'stub': ['HTTP client transport (HTTPClient.open -> simulated upstream)', 'clock', 'file system for the file cache (SimFS)'],
+    'stub': ['HTTP client transport (HTTPClient.open -> simulated upstream)', 'clock', 'file system for the file cache (SimFS)', 'sqlite3 module as seen by mapproxy.cache.mbtiles in the race mode (checks/simsql.py: calls are pre-emption points, SQL executed by the real library)'],
     'outside_the_seams': ['sqlite file I/O on tmpfs'],
 }
 ASSUMPTIONS = [
